@@ -84,29 +84,42 @@ def run(rep, tier):
             rep.bad("C01.R1", fn, loc_of(rev), "run-without-cas", "the task body can be entered without the worker having won the tagged compare-exchange pending->active "
                     "(is_valid established: %s, previous==pending established: %s): two workers can run the same task" % (valid, prev),
                     path=[{"block": x} for x in block_path(fn, rb)])
-        # R3: the losing edge
+        # R3: the losing edges - every CFG edge on which the outcome of the exchange is known to be a loss
+        # (is_valid() false, or previous != pending), however the test is written (if/else, guard clause, inverted)
+        # the blocks that evaluate the outcome form the gate; an edge that leaves the gate is a losing edge iff the
+        # branch condition, evaluated for a win (is_valid() true, previous == pending), would have taken the other edge
+        from engine.kinds import eval_tree as _ev, Unknown as _Unk
+        is_gate = lambda blk: blk.cond is not None and ((SS + ".is_valid()") in T(blk.cond) or (SS + ".get_previous()") in T(blk.cond))
+        win_env = {"%s.is_valid()" % SS: True, "%s.get_previous()" % SS: enum["pending"]}
+        lose_targets = []
         gate = None
         for b, blk in fn.blocks.items():
-            if blk.cond is not None and (SS + ".is_valid()") in T(blk.cond) and "get_previous()" in T(blk.cond):
-                gate = blk
-        if gate is None:
-            for b, blk in fn.blocks.items():
-                if blk.cond is not None and (SS + ".is_valid()") in T(blk.cond) or (blk.cond is not None and (SS + ".get_previous()") in T(blk.cond)):
+            if not is_gate(blk):
+                continue
+            try:
+                win = bool(_ev(blk.cond, win_env))
+            except _Unk:
+                continue
+            for l, t, _ in blk.succ:
+                if l in ("true", "false") and (l == "true") != win and not is_gate(fn.blocks[t]):
+                    lose_targets.append(t)
                     gate = blk
         if gate is None:
             rep.bad("C01.R3", fn, loc_of(rev), "no-gate", "no branch on the outcome of the state exchange")
         else:
-            lose = [t for l, t, _ in gate.succ if l == "false"][0]
-            paths = eval_walk(fn, lose, stop={b for b, blk in fn.blocks.items() if blk.cond is not None and T(blk.cond) == "true"})
             bad = []
             dis = True
-            for evs, end in paths:
-                names = [callee_short(e) for _, _, e in evs if e.get("k") == "call"]
-                if "disable_restore" not in names:
-                    dis = False
-                for n in names:
-                    if n in ("store_state", "schedule_thread", "schedule_thread_last") or n == "operator()":
-                        bad.append(n)
+            for lose in sorted(set(lose_targets)):
+                paths = eval_walk(fn, lose, stop={b for b, blk in fn.blocks.items() if blk.cond is not None and T(blk.cond) == "true"})
+                for evs, end in paths:
+                    # a path that re-enters the test of the exchange's outcome has not left the gate yet (a && b: the
+                    # false edge of a goes to the else branch, not through b)
+                    names = [callee_short(e) for _, _, e in evs if e.get("k") == "call"]
+                    if "disable_restore" not in names:
+                        dis = False
+                    for n in names:
+                        if n in ("store_state", "schedule_thread", "schedule_thread_last") or n == "operator()":
+                            bad.append(n)
             if dis and not bad:
                 rep.ok("C01.R3", fn, "losing worker: disable_restore() and continue; no store_state / re-queue")
             else:
